@@ -34,6 +34,7 @@ def run(ck, tier):
     typst_order(ck, p, "R-C02-order")
     _adjacent(ck, p, byk)
     _fallback(ck, p)
+    _md_cover(ck, p, byk)
     from . import c04, c05
     c04._byte_lengths(c05._Sub(ck, "R-C02-units", ""), p)
     c04._typst_verbatim(c05._Sub(ck, "R-C02-units", ""), p)
@@ -1183,3 +1184,65 @@ def _fallback(ck, p):
             else:
                 ck.undecided(rule, key, f.loc(t["ln"]), "the searched slice and the slice whose length is the fallback are not recognisably the same (%s vs %s)" % (sorted(map(str, b1))[:2], sorted(map(str, b2))[:2]))
     ck.floor(rule, "position(..).unwrap_or(len) sites in the front ends", n, 2)
+
+
+# ---------------------------------------------------------------------------------------------------
+def _md_cover(ck, p, byk):
+    """A token that merely covers a Markdown event (code, math, HTML, code-block text, an ignored link title)
+    has to be as long as the event's SOURCE RANGE.  The event's own text is something else: pulldown-cmark
+    expands a tab in front of an indented code block into spaces (text longer than its range - the token
+    runs past the end of the text and over its successor) and strips the backticks of a code span (shorter)."""
+    rule = "R-C02-cover"
+    ck.rule(rule, "Markdown: a token built with Span::new_with_len(cursor, n) for an event has n counted on the source (chars of source_str[range]), never on the event's own text (CowStr): that text can be longer than the range it came from (tab expansion), which puts the token's end past the text and over the next token")
+    fs = byk.get("<Markdown as Parser>::parse")
+    if not ck.anchor(rule, "<Markdown as Parser>::parse", fs):
+        return
+    f = fs[0]
+    ck.saw(f)
+    pv = Prov(f)
+    n = 0
+    bad = []
+    for bi, t in f.calls():
+        if norm(inst_of(t) or "") != "harper_core::span::{impl}::new_with_len" or len(t["args"]) < 2:
+            continue
+        from ..util import const_int
+        if const_int(t["args"][1]) is not None:
+            continue
+        n += 1
+        cow = _counts_event_text(f, pv, t["args"][1])
+        if cow:
+            bad.append(t["ln"])
+    ck.floor(rule, "event-covering tokens in Markdown::parse", n, 2)
+    if bad:
+        ck.refuted(rule, "Markdown::parse:cover-length", f.loc(bad[0]), "a token is sized by the length of the event's own text (lines %s): for `-\\t\\tx` pulldown-cmark reports a code-block text of two spaces for a one-character range, and the Unlintable token 3..5 lies past the end of the four-character text and over the token 3..4 that follows" % sorted(set(bad)))
+    else:
+        ck.proved(rule, "Markdown::parse:cover-length", f.span, "%d event-covering tokens, all sized on the source range" % n)
+
+
+def _counts_event_text(f, pv, op, depth=0):
+    """is this length `<event text>.chars().count()` - counted on a pulldown-cmark CowStr rather than on a slice
+    of the source string?  Follows the value through count / chars / deref / copies only."""
+    if depth > 8:
+        return False
+    def rooted_in_event(o):
+        while isinstance(o, tuple) and o and o[0] == "field":
+            o = o[1]
+        return isinstance(o, tuple) and o and o[0] == "call" and "pulldown_cmark" in str(o[3] or o[2] or "")
+    for o in pv.trace_operand(op):
+        if o[0] == "field" and rooted_in_event(o) and depth > 0:
+            return True
+        if o[0] != "call":
+            continue
+        t = f.blocks[o[1]]["t"]
+        m = method(t)
+        if m in ("count", "chars", "len", "clone", "as_ref", "borrow", "as_str", "to_string", "into") and t["args"]:
+            if _counts_event_text(f, pv, t["args"][0], depth + 1):
+                return True
+        if m in ("deref", "as_ref", "borrow", "to_string", "into_string") and t["args"]:
+            pl = place_of(t["args"][0])
+            if pl and "CowStr" in (f.local_tystr(pl[0]) or ""):
+                return True
+    pl = place_of(op)
+    if pl and "CowStr" in (f.local_tystr(pl[0]) or ""):
+        return True
+    return False
